@@ -8,7 +8,6 @@ use std::pin::Pin;
 use std::rc::Rc;
 use std::task::{Context, Poll, Waker};
 
-use emit::runtime::Runtime;
 use emit::span::completion::Completion;
 use emit::span::Span;
 use emit::Props;
@@ -16,8 +15,6 @@ use serde::{Deserialize, Serialize};
 use vcore::{pick, vassert, vassert_eq, Cx, Res};
 
 use crate::rec::*;
-
-pub type Rt = Runtime<RecEmitter, VerdictFilter, emit::platform::thread_local_ctxt::ThreadLocalCtxt, ClockH, RngH>;
 
 pub const PH_BEGIN: u32 = 0;
 pub const PH_BODY: u32 = 1;
@@ -342,6 +339,30 @@ fn s14(rt: &Rt, st: &St, exit: Exit, x: i32) -> Ret {
     })
 }
 
+// ---- sites with a call-site `when:` filter (it replaces the runtime's filter for the start decision) ----
+
+#[emit::span(rt: rt, when: wf, ok_lvl: emit::Level::Info, "s15 {x}")]
+fn s15(rt: &Rt, wf: &SpecFilter, st: &St, exit: Exit, x: i32) -> Result<i32, MyErr> {
+    result_body!(st, exit, x, MyErr, fail)
+}
+
+#[emit::info_span(rt: rt, when: wf, err_lvl: emit::Level::Warn, "s16")]
+async fn s16(rt: &Rt, wf: &SpecFilter, st: &St, exit: Exit, x: i32) -> Result<i32, MyErr> {
+    st.phase.set(PH_BODY);
+    YieldOnce(false).await;
+    result_body!(st, exit, x, MyErr, fail)
+}
+
+#[emit::span(rt: rt, when: wf, "s17 {x}")]
+fn s17(rt: &Rt, wf: &SpecFilter, st: &St, exit: Exit, x: i32) {
+    unit_body!(st, exit)
+}
+
+#[emit::span(rt: rt, when: wf, guard: g, panic_lvl: emit::Level::Info, "s18")]
+fn s18(rt: &Rt, wf: &SpecFilter, st: &St, strc: &Rc<St>, exit: Exit) -> Ret {
+    guard_body!(st, strc, exit, g)
+}
+
 // ---- site table ------------------------------------------------------------------------------------
 
 #[derive(Clone, Copy, PartialEq, Eq, Debug)]
@@ -366,6 +387,8 @@ pub struct Site {
     /// ok_lvl / err_lvl / err given => the macro generates the Result-aware completion
     pub result_completion: bool,
     pub err_mapped: bool,
+    /// the site passes `when: <the case's second filter>`
+    pub has_when: bool,
 }
 
 const HERE: &str = module_path!();
@@ -384,12 +407,13 @@ const fn site(name: &'static str, tpl: &'static str, is_async: bool, shape: Shap
         panic_lvl: None,
         result_completion: false,
         err_mapped: false,
+        has_when: false,
     }
 }
 
 use emit::Level::{Debug as D, Error as E, Info as I, Warn as W};
 
-pub const SITES: [Site; 15] = [
+pub const SITES: [Site; 19] = [
     site("span/sync-fn", "s0 {x}", false, Shape::Unit, true),
     site("span/async-fn", "s1 {x}", true, Shape::Unit, true),
     Site { panic_lvl: Some(W), ..site("span/sync-fn/panic_lvl", "s2", false, Shape::Unit, false) },
@@ -411,6 +435,10 @@ pub const SITES: [Site; 15] = [
     site("span/sync-fn/guard", "s12 {x}", false, Shape::Guard, true),
     Site { panic_lvl: Some(W), ..site("span/async-fn/guard+panic_lvl", "s13", true, Shape::Guard, false) },
     Site { default_lvl: Some(I), ..site("new_info_span", "s14 {x}", false, Shape::NewSpan, true) },
+    Site { ok_lvl: Some(I), result_completion: true, has_when: true, ..site("span/sync-fn/when+ok_lvl", "s15 {x}", false, Shape::Result, true) },
+    Site { default_lvl: Some(I), err_lvl: Some(W), result_completion: true, has_when: true, ..site("info_span/async-fn/when+err_lvl", "s16", true, Shape::Result, false) },
+    Site { has_when: true, ..site("span/sync-fn/when", "s17 {x}", false, Shape::Unit, true) },
+    Site { panic_lvl: Some(I), has_when: true, ..site("span/sync-fn/when+guard+panic_lvl", "s18", false, Shape::Guard, false) },
 ];
 
 pub fn exits_of(site: &Site) -> Vec<Exit> {
@@ -439,7 +467,10 @@ pub fn exits_of(site: &Site) -> Vec<Exit> {
 pub struct CaseB {
     pub site: u8,
     pub exit: u32,
-    pub verdict: bool,
+    /// the runtime's filter
+    pub filter: FilterSpec,
+    /// the filter passed as `when:` by the sites that have that parameter
+    pub when: FilterSpec,
     pub rng_avail: bool,
     pub rng_seed: u32,
     pub clock: Vec<Option<u32>>,
@@ -485,14 +516,9 @@ pub fn check_form(c: &CaseB, cx: &mut Cx) -> Res {
     let site = &SITES[site_ix];
     let exits = exits_of(site);
     let exit = exits[pick(c.exit, exits.len())];
-    let st = St::new(c.verdict, c.clock.clone(), c.rng_avail, c.rng_seed as u64);
-    let rt: Rt = Runtime::build(
-        RecEmitter { id: 0, st: st.clone() },
-        VerdictFilter(st.clone()),
-        ctxt(),
-        ClockH(st.clone()),
-        RngH(st.clone()),
-    );
+    let st = St::new(c.filter.clone(), c.when.clone(), c.clock.clone(), c.rng_avail, c.rng_seed as u64);
+    let rt: Rt = build_rt(&st, 0);
+    let wf = SpecFilter { which: F_WHEN, st: st.clone() };
     let cancel = exit == Exit::CancelAtYield;
     let x = c.x;
     st.phase.set(PH_BEGIN);
@@ -512,12 +538,25 @@ pub fn check_form(c: &CaseB, cx: &mut Cx) -> Res {
         11 => sync_call(|| s11(&rt, s, exit, x)).map(|o| o.map(|r| ret_of(r.map_err(|e| e.to_string())))),
         12 => sync_call(|| s12(&rt, s, &st, exit, x)),
         13 => drive(s, s13(&rt, s, &st, exit), cancel),
-        _ => sync_call(|| s14(&rt, s, exit, x)),
+        14 => sync_call(|| s14(&rt, s, exit, x)),
+        15 => sync_call(|| s15(&rt, &wf, s, exit, x)).map(|o| o.map(|r| ret_of(r.map_err(|e| e.to_string())))),
+        16 => drive(s, s16(&rt, &wf, s, exit, x), cancel).map(|o| o.map(|r| ret_of(r.map_err(|e| e.to_string())))),
+        17 => sync_call(|| s17(&rt, &wf, s, exit, x)).map(|o| o.map(|_| Ret::Unit)),
+        _ => sync_call(|| s18(&rt, &wf, s, &st, exit)),
     };
     st.phase.set(PH_AFTER + 1);
 
     // ---- expectations ---------------------------------------------------------------------------
-    let enabled = c.verdict;
+    // "passed the filter" = the verdict of the deciding filter (`when:` if the site has one, else the
+    // runtime's) on the span's START event: the macro's own level, no extent, no err, "{span_name} started"
+    let start_feat = Feat {
+        lvl: site.default_lvl,
+        has_extent: false,
+        has_err: false,
+        tpl: "{span_name} started".to_string(),
+    };
+    let (deciding, deciding_spec) = if site.has_when { (F_WHEN, &c.when) } else { (F_RUNTIME, &c.filter) };
+    let enabled = deciding_spec.verdict(&start_feat, 0);
     let panics = matches!(exit, Exit::Panic | Exit::GCompleteThenPanic);
     let err_tag = match exit {
         Exit::ReturnErr => Some("return"),
@@ -539,6 +578,10 @@ pub fn check_form(c: &CaseB, cx: &mut Cx) -> Res {
     cx.class_if(site.is_async, "B:async");
     cx.class_if(site.shape == Shape::Guard, "B:guard-param");
     cx.class_if(!enabled && exit == Exit::GWithCompletion, "B:disabled+with_completion");
+    cx.class_if(site.has_when, "B:when-param");
+    cx.class_if(site.has_when && enabled && !c.filter.verdict(&start_feat, 0), "B:when-accepts-over-rejecting-runtime-filter");
+    cx.class_if(site.has_when && !enabled && c.filter.verdict(&start_feat, 0), "B:when-rejects-over-accepting-runtime-filter");
+    cx.class_if(deciding_spec.is_event_dependent(), "B:event-dependent-filter");
     cx.nontrivial(!enabled || exit != Exit::Fall);
 
     // the caller sees exactly what the body produced
@@ -574,6 +617,35 @@ pub fn check_form(c: &CaseB, cx: &mut Cx) -> Res {
         }
     }
 
+    // the filter decides once, when the span is created, on the start event
+    let decided = st.filters[deciding].borrow().evals.first().cloned();
+    match &decided {
+        None => cx.fail("filter-not-consulted", format!("site {}: the deciding filter was never consulted", site.name))?,
+        Some((feat, v)) => {
+            vassert!(
+                cx,
+                *feat == start_feat && *v == enabled,
+                "start-filter-verdict-mismatch",
+                "site {}: the filter {:?} was first shown {:?} and answered {}; the start event should look like {:?} (verdict {})",
+                site.name,
+                deciding_spec,
+                feat,
+                v,
+                start_feat,
+                enabled
+            );
+        }
+    }
+    // evaluations after the start decision (of the runtime's filter: `when:` only exists at the start)
+    let later: Vec<(Feat, bool)> = {
+        let rt_evals = st.filters[F_RUNTIME].borrow().evals.clone();
+        let skip = if site.has_when { 0 } else { 1 };
+        let mut v: Vec<(Feat, bool)> = rt_evals.into_iter().skip(skip).collect();
+        v.extend(st.filters[F_WHEN].borrow().evals.iter().skip(if site.has_when { 1 } else { 0 }).cloned());
+        v
+    };
+    let filtered_again = later.iter().any(|(_, v)| !*v);
+
     let recs = st.recs.borrow().clone();
     if !completes {
         if !recs.is_empty() {
@@ -592,6 +664,21 @@ pub fn check_form(c: &CaseB, cx: &mut Cx) -> Res {
         return Ok(());
     }
 
+    if recs.is_empty() && filtered_again {
+        cx.fail(
+            "completion-filtered-again",
+            format!(
+                "site {} exit {:?}: the span passed {} ({:?}) and was started, but produced no event: the runtime filter {:?} was consulted again for the completion event {:?} and rejected it",
+                site.name,
+                exit,
+                if site.has_when { "its `when:` filter" } else { "the runtime filter" },
+                deciding_spec,
+                c.filter,
+                later.iter().find(|(_, v)| !*v).map(|(f, _)| f)
+            ),
+        )?;
+        return Ok(());
+    }
     vassert!(cx, !recs.is_empty(), "completion-missing", "site {} exit {:?}: enabled span produced no event", site.name, exit);
     vassert!(
         cx,
@@ -604,6 +691,24 @@ pub fn check_form(c: &CaseB, cx: &mut Cx) -> Res {
         recs.iter().map(|r| r.recorder).collect::<Vec<_>>()
     );
     let r = &recs[0];
+    // would the runtime's filter have said something else about the completion event than the deciding filter
+    // said about the start event?
+    let result_exit = site.result_completion && !panics && !cancel;
+    if !c.filter.verdict(&r.feat(), if site.has_when { 0 } else { 1 }) {
+        cx.class(if panics && exit != Exit::GCompleteThenPanic {
+            "differ:panic"
+        } else if result_exit && matches!(exit, Exit::ReturnErr | Exit::QuestionErr | Exit::TailErr) {
+            "differ:err-exit"
+        } else if result_exit {
+            "differ:ok-exit"
+        } else if matches!(exit, Exit::GComplete | Exit::GCompleteThenPanic | Exit::NsStartTwiceComplete) {
+            "differ:complete"
+        } else if matches!(exit, Exit::GCompleteWith) {
+            "differ:complete_with"
+        } else {
+            "differ:drop"
+        });
+    }
     vassert_eq!(cx, r.recorder, if on_custom { CUSTOM_ID } else { 0 }, "wrong-completion", "site {} exit {:?}: recorder", site.name, exit);
     vassert!(cx, r.kind_is_span, "span-kind-missing", "site {}: event lacks evt_kind=span: {:?}", site.name, r.props);
     let (want_name, want_mdl) = if exit == Exit::GRename { ("renamed", "renamed::mdl") } else { (site.tpl, site.mdl) };
@@ -660,7 +765,7 @@ pub fn check_form(c: &CaseB, cx: &mut Cx) -> Res {
     }
     let seen = st.filter_seen.borrow().first().copied();
     let Some((t, s_id)) = seen else {
-        return cx.fail("harness/filter-not-consulted", format!("site {}: the runtime filter was never consulted", site.name));
+        return cx.fail("filter-not-consulted", format!("site {}: no filter was ever consulted", site.name));
     };
     if c.rng_avail {
         vassert!(cx, t.is_some() && s_id.is_some(), "ids-not-generated", "site {}: rng available but span ctxt has trace={:?} span={:?}", site.name, t, s_id);
